@@ -388,7 +388,46 @@ fn empties_script(seed: u64, policy: &str) -> Script {
     }
 }
 
+/// Records whose block-filling frames are byte-identical (one byte repeated, or a pattern of the
+/// frame capacity's period), several blocks long: whatever a reader remembers from one frame to the
+/// next looks the same for consecutive frames.
+fn uniform_script(seed: u64, policy: &str) -> Script {
+    use crate::script::{PERIODIC_SEED, UNIFORM_SEED};
+    let mut rng = Rng(seed.wrapping_mul(0x51_7711).wrapping_add(5));
+    let mut steps = vec![Step::Create { q: 0 }, Step::Create { q: 1 }];
+    let mut payload_seed = seed << 20;
+    for round in 0..2 + rng.below(2) {
+        for _ in 0..rng.below(3) {
+            payload_seed += 1;
+            steps.push(Step::Append { q: 1, pos: None, batch: vec![Payload { seed: payload_seed, len: rng.below(200) as usize, embed: None }] });
+        }
+        payload_seed += 1;
+        let regular = if rng.chance(50) { UNIFORM_SEED } else { PERIODIC_SEED } | (payload_seed & 0xffff_ffff);
+        // at least two block-filling continuation frames
+        let len = 3 * 32_768 + rng.below(40_000) as usize;
+        steps.push(Step::Append { q: 0, pos: None, batch: vec![Payload { seed: regular, len, embed: None }] });
+        if round > 0 && rng.chance(50) {
+            steps.push(Step::Truncate { q: 0, p: round - 1 });
+        }
+        if rng.chance(30) {
+            steps.push(Step::Restart);
+        }
+    }
+    steps.push(Step::Restart);
+    Script {
+        name: format!("uniform-{seed}"),
+        policy: policy.to_string(),
+        queues: vec!["u".to_string(), "other".to_string()],
+        anchors: anchors(),
+        steps,
+        expect: None,
+    }
+}
+
 pub fn generate(profile_name: &str, seed: u64, policy: &str) -> Script {
+    if profile_name == "uniform" {
+        return uniform_script(seed, policy);
+    }
     if profile_name == "sizes" {
         return sizes_script(seed, policy);
     }
